@@ -9,16 +9,19 @@ Model: Model/Glyf.lean
           1fdb446], resolve_coords_len, read_points_fast, ComponentIter, count_and_instructions),
           read-fonts/src/tables/loca.rs (Loca::read, get_raw, get_glyf),
           write-fonts simple.rs `FromObjRef` (contoursOf).
-Not modelled in Lean: `SimpleGlyph::from_bezpath` (f64 rounding, `isclose`) and skrifa's `to_path`; they
-are exercised by the harness oracle `bezpath-draws-back` on the real code only.
+`SimpleGlyph::from_bezpath` is modelled (Model/GlyfPath.lean) for INTEGER-coordinate paths only (f64
+rounding and the `isclose` tolerance are not modelled); skrifa's unscaled draw is `drawUnscaled` over
+Model/ToPath.lean (C12's model of outline/path.rs).  Non-integer paths are exercised by nobody; integer
+paths additionally by the harness oracle `bezpath-draws-back` on the real code.
 -/
 import FontVerif.Model.Glyf
 import FontVerif.Lemmas.Glyf
 import FontVerif.Lemmas.GlyfBytes
 import FontVerif.Lemmas.GlyfComp
+import FontVerif.Lemmas.GlyfPath
 set_option linter.unusedVariables false
 namespace FontVerif.C09
-open FontVerif FontVerif.Glyf
+open FontVerif FontVerif.Glyf FontVerif.GlyfPath
 
 /-! ## flags: run-length coding -/
 
@@ -634,6 +637,166 @@ theorem built_simple_glyph_reads_back (gs : List Glyph) (glyf loca : List Nat)
       · rw [hx1, hx2, hx3, hx4]
     · cases hwi
 
+/-! ## BezPath → glyph → unscaled draw (integer-coordinate line/quadratic paths) -/
+
+/-- **elide_sound.**  `InterpolatableContourBuilder::build` drops point `i` of a contour only if it
+is on-curve, both its cyclic neighbours are off-curve, and it is EXACTLY their midpoint (integer
+coordinates); off-curve points are never dropped — so both neighbours of a dropped point survive
+and the reader's midpoint insertion restores it. -/
+theorem elide_sound (l : List Point) (i : Nat) (h : isImplicit l i = true) :
+    ∃ p0 p1 p2, l[i]? = some p1 ∧ wrapPrev l i = some p0 ∧ wrapNext l i = some p2 ∧
+      p1.on = true ∧ p0.on = false ∧ p2.on = false ∧
+      p0.x + p2.x = 2 * p1.x ∧ p0.y + p2.y = 2 * p1.y := by
+  unfold isImplicit at h
+  split at h
+  · rename_i p1 p0 p2 h1 h0 h2
+    exact ⟨p0, p1, p2, h1, h0, h2, implicit3_spec _ _ _ h⟩
+  · cases h
+
+theorem elide_keeps_off_curve (l : List Point) (i : Nat) (p : Point) (hp : l[i]? = some p)
+    (hoff : p.on = false) : isImplicit l i = false := by
+  unfold isImplicit
+  rw [hp]
+  split
+  · rename_i p1 p0 p2 h1 _ _
+    simp only [Option.some.injEq] at h1
+    subst h1
+    exact off_not_implicit _ _ _ hoff
+  · rfl
+
+/-- **from_bezpath_contours.**  For a path made of closed contours `M s (L|Q)* Z` with integer
+coordinates, `SimpleGlyph::from_bezpath` succeeds; contour `k` of the glyph is the elision of the
+builder's points for contour `k` of the path (`closedPts`: move point, one on-curve point per line,
+off+on per quadratic, a final point equal to the move point removed); there are no instructions. -/
+theorem from_bezpath_contours (cs : List PContour) :
+    ∃ g, fromBezpath (cs.flatMap PContour.els) = .ok g ∧
+      g.contours = cs.map (fun c => elide c.pts) ∧ g.instructions = [] := by
+  obtain ⟨s', h1, h2⟩ := run_contours cs [] none
+  unfold fromBezpath
+  rw [h1]
+  refine ⟨_, rfl, ?_, rfl⟩
+  simp only [St.final, curList, List.append_nil, List.nil_append] at h2
+  simp only []
+  cases hcur : s'.cur with
+  | none =>
+    rw [hcur] at h2
+    simp only [List.append_nil] at h2
+    rw [h2, List.map_map]; rfl
+  | some c0 =>
+    rw [hcur] at h2
+    simp only [] at h2 ⊢
+    rw [h2, List.map_map]; rfl
+
+/-- what a pen must receive for a closed contour of the path, in unscaled 26.6 units: `move` to the
+start, the segments in order (a last straight segment back to the start is left to `close`),
+`close` -/
+def contourCmds (c : PContour) : List ToPath.Cmd :=
+  ToPath.Cmd.move (64 * c.sx) (64 * c.sy) :: (closeNorm c.sx c.sy c.segs).map Seg.cmd
+    ++ [ToPath.Cmd.close]
+
+/-- **bezpath_draws_back.**  Any integer-coordinate (i16 range) path made of closed line/quadratic
+contours, turned into a glyph by `from_bezpath` and drawn unscaled by skrifa (`to_path`, FreeType
+style, over the glyph's points and end points), produces — for EVERY such path, whatever points the
+builder elided, including an elided start point — exactly the path's own `move / line / quad / close`
+sequence with the same coordinates (×64 in 26.6), without error. -/
+theorem bezpath_draws_back (cs : List PContour) (hb : ∀ c ∈ cs, c.Bounded) (g : SimpleGlyph)
+    (hg : fromBezpath (cs.flatMap PContour.els) = .ok g) :
+    drawUnscaled (g.contours.flatten.map fastPt) (endSpec 0 g.contours)
+      = (cs.flatMap contourCmds, none) := by
+  obtain ⟨g', hg', hc, _⟩ := from_bezpath_contours cs
+  rw [hg] at hg'
+  simp only [Except.ok.injEq] at hg'
+  subst hg'
+  have hdraw : ∀ c ∈ cs, ToPath.contourToPath ToPath.fixedCoord .freeType ((elide c.pts).map toPt)
+      (((elide c.pts).map toPt).getLast?.getD ⟨0, 0, 0⟩) = (contourCmds c, none) :=
+    fun c hcm => draw_path_contour c (hb c hcm)
+  have hne : ∀ l ∈ g.contours, l ≠ [] := by
+    rw [hc]
+    intro l hl
+    obtain ⟨c, _, rfl⟩ := List.mem_map.mp hl
+    obtain ⟨t, ht, _⟩ := closedPts_head ⟨c.sx, c.sy, true⟩ c.segs
+    unfold PContour.pts; rw [ht]
+    exact elide_ne_nil _ t rfl
+  have herr : ∀ l ∈ g.contours, (ToPath.contourToPath ToPath.fixedCoord .freeType (l.map toPt)
+      ((l.map toPt).getLast?.getD ⟨0, 0, 0⟩)).2 = none := by
+    rw [hc]
+    intro l hl
+    obtain ⟨c, hcm, rfl⟩ := List.mem_map.mp hl
+    rw [hdraw c hcm]
+  have := toPathGo_contours g.contours [] g.contours.flatten 0 (by simp) hne herr
+  unfold drawUnscaled ToPath.toPath
+  simp only [List.map_map, fastPt, Function.comp_def]
+  simp only [List.length_nil] at this
+  rw [this, hc, List.flatMap_map]
+  congr 1
+  have hfm : ∀ (l : List PContour) (f g : PContour → List ToPath.Cmd), (∀ c ∈ l, f c = g c) →
+      l.flatMap f = l.flatMap g := by
+    intro l f g
+    induction l with
+    | nil => intro _; rfl
+    | cons c l ih =>
+      intro h
+      rw [List.flatMap_cons, List.flatMap_cons, h c (by simp), ih (fun x hx => h x (by simp [hx]))]
+  apply hfm
+  intro c hcm
+  rw [hdraw c hcm]
+
+/-- **bezpath_glyph_draws_back.**  The same through the bytes: if the glyph built from such a path
+is accepted by the writer, then the bytes parse, `read_points_fast` succeeds, and drawing the decoded
+points with the decoded end points is exactly the path's command sequence. -/
+theorem bezpath_glyph_draws_back (cs : List PContour) (hne : cs ≠ []) (hb : ∀ c ∈ cs, c.Bounded)
+    (g : SimpleGlyph) (hg : fromBezpath (cs.flatMap PContour.els) = .ok g) (bytes : List Nat)
+    (hw : writeGlyph (.simple g) = .ok bytes) :
+    ∃ v pts, readSimple bytes = some v ∧ v.readPointsFast = some pts ∧
+      drawUnscaled pts v.endPts = (cs.flatMap contourCmds, none) := by
+  obtain ⟨g', hg', hc, hins⟩ := from_bezpath_contours cs
+  have hbox := boxPts_bounded cs hb
+  have hdraw := bezpath_draws_back cs hb g hg
+  have hmax := (accepted_simple_le_65535_points g bytes hw).1
+  rw [hg] at hg'
+  simp only [Except.ok.injEq] at hg'
+  subst hg'
+  -- bounding box and points are i16 values
+  have hgbox : inI16 g.xMin ∧ inI16 g.yMin ∧ inI16 g.xMax ∧ inI16 g.yMax := by
+    unfold fromBezpath at hg
+    split at hg
+    · cases hg
+    · simp only [Except.ok.injEq] at hg
+      subst hg
+      refine ⟨minL_in _ ?_, minL_in _ ?_, maxL_in _ ?_, maxL_in _ ?_⟩ <;>
+      · intro v hv
+        obtain ⟨q, hq, rfl⟩ := List.mem_map.mp hv
+        first | exact (hbox q hq).1 | exact (hbox q hq).2
+  have hpts : PointsInRange g.contours.flatten := by
+    intro p hp
+    rw [hc] at hp
+    obtain ⟨l, hl, hpl⟩ := List.mem_flatten.mp hp
+    obtain ⟨c, hcm, rfl⟩ := List.mem_map.mp hl
+    have hp' := elide_subset _ p hpl
+    obtain ⟨hx, hy, hs⟩ := hb c hcm
+    obtain ⟨t, ht, hsub⟩ := closedPts_head ⟨c.sx, c.sy, true⟩ c.segs
+    unfold PContour.pts at hp'
+    rw [ht] at hp'
+    simp only [List.mem_cons] at hp'
+    rcases hp' with rfl | hp'
+    · exact ⟨hx, hy⟩
+    · exact seg_pts_bounded c.segs hs p (hsub p hp')
+  have hcne : g.contours ≠ [] := by
+    rw [hc]; intro e; exact hne (List.map_eq_nil_iff.mp e)
+  simp only [writeGlyph] at hw
+  split at hw
+  · cases hw
+  · split at hw
+    · rename_i b hws
+      simp only [WriteResult.ok.injEq] at hw
+      subst hw
+      obtain ⟨v, hr, _, _, _, _, _, hends, _, _, hfast, _⟩ :=
+        simple_glyph_roundtrip g b hgbox hpts hmax hcne hws
+      refine ⟨v, _, hr, hfast, ?_⟩
+      rw [hends]
+      exact hdraw
+    · cases hw
+
 /-! ## non-vacuity -/
 
 /-- a 300-point glyph (one flag run of 300: items with repeat bytes 255 and 42) satisfies every
@@ -685,5 +848,25 @@ def tri : SimpleGlyph :=
 example : (build [.empty, .simple tri, .composite cg2, .simple ⟨0, 0, 0, 0, [], []⟩]).isSome = true := by
   decide +kernel
 example : (build [.empty, .simple tri]).map (fun r => r.2) = some [0, 0, 26] := by decide +kernel
+
+/-- a "circle" of four quadratics whose on-curve points (including the START point) are all implied:
+the glyph keeps only the four off-curve points, and the draw starts at the re-created midpoint -/
+def circle : PContour := ⟨0, 1, [.quad 1 1 1 0, .quad 1 (-1) 0 (-1), .quad (-1) (-1) (-1) 0, .quad (-1) 1 0 1]⟩
+
+example : circle.Bounded := by
+  refine ⟨by decide, by decide, ?_⟩
+  intro s hs
+  simp only [circle, List.mem_cons, List.not_mem_nil, or_false] at hs
+  rcases hs with rfl | rfl | rfl | rfl <;> simp [Seg.Bounded, inI16]
+example : (fromBezpath circle.els).toOption.map (·.contours) =
+    some [[⟨1, 1, false⟩, ⟨1, -1, false⟩, ⟨-1, -1, false⟩, ⟨-1, 1, false⟩]] := by decide +kernel
+example : contourCmds circle = [.move 0 64, .quad 64 64 64 0, .quad 64 (-64) 0 (-64),
+    .quad (-64) (-64) (-64) 0, .quad (-64) 64 0 64, .close] := by decide +kernel
+/-- a triangle closed by an explicit line back to the start: the duplicate point is removed and the
+closing line is left to `close` -/
+example : contourCmds ⟨0, 0, [.line 10 0, .line 5 8, .line 0 0]⟩ =
+    [.move 0 0, .line 640 0, .line 320 512, .close] := by decide +kernel
+example : isImplicit [⟨0, 1, true⟩, ⟨1, 1, false⟩, ⟨1, 0, true⟩, ⟨1, -1, false⟩] 2 = true := by
+  decide +kernel
 
 end FontVerif.C09
